@@ -356,17 +356,17 @@ def _sig(v):
 
 
 HARNESSES = [
-    HarnessSpec('amhl', h_amhl, lambda t: [{'n': n} for n in ((2, 3, 4) if t == 'quick' else (2, 3, 4, 5, 6))], replay=r_amhl,
+    HarnessSpec('amhl', h_amhl, lambda t: [{'n': n} for n in ((2, 3, 4) if t == 'quick' else (2, 3, 4, 5, 6))], witness_replay=True, replay=r_amhl,
                 signature=_sig, fallback=_fallback_amhl),
     HarnessSpec('wrong_hop', h_wrong_hop, lambda t: [{'n': n} for n in ((2, 3) if t == 'quick' else (2, 3, 4))], replay=r_amhl,
                 signature=_sig),
-    HarnessSpec('tools', h_tools, lambda t: [{'n': n} for n in ((2,) if t == 'quick' else (2, 3))], replay=r_amhl, signature=_sig,
+    HarnessSpec('tools', h_tools, lambda t: [{'n': n} for n in ((2,) if t == 'quick' else (2, 3))], witness_replay=True, replay=r_amhl, signature=_sig,
                 fallback=_fallback),
     HarnessSpec('sample', h_sample, lambda t: [{'slen': n, 'i': i} for n in ((1, 32, 33, 40) if t == 'quick' else (1, 3, 31, 32, 33, 40, 64, 65))
-                                               for i in (0, 1, 300)], replay=r_sample, signature=_sig),
+                                               for i in (0, 1, 300)], witness_replay=True, replay=r_sample, signature=_sig),
     HarnessSpec('tools_refunds', h_tools_refunds, lambda t: [{'n': 3, 'refunds': r} for r in ([], [0], [1], [2], [0, 2], [0, 1, 2])] +
-                ([{'n': 4, 'refunds': r} for r in ([0], [1, 2], [0, 3])] if t != 'quick' else []), replay=r_tools_refunds, signature=_sig,
+                ([{'n': 4, 'refunds': r} for r in ([0], [1, 2], [0, 3])] if t != 'quick' else []), witness_replay=True, replay=r_tools_refunds, signature=_sig,
                 fallback=lambda params, rng: {'seed': rng.randbytes(32)}),
-    HarnessSpec('tools_noseed', h_tools_noseed, lambda t: [{'n': n} for n in ((2, 3) if t == 'quick' else (2, 3, 4))], replay=r_tools_noseed,
+    HarnessSpec('tools_noseed', h_tools_noseed, lambda t: [{'n': n} for n in ((2, 3) if t == 'quick' else (2, 3, 4))], witness_replay=True, replay=r_tools_noseed,
                 signature=_sig, fallback=lambda params, rng: {}),
 ]
